@@ -508,7 +508,10 @@ package parse
 //@   nopanic
 //@ func (Node).Children
 //@   nopanic
-//@   ensures forall(i, 0, len(result), result[i] != nil)
+//@   ensures len(result) == node_nchildren(self) && forall(i, 0, len(result), result[i] != nil && result[i] == node_childat(self, i))
+//@ func (Node).ArgDate
+//@   nopanic
+//@   ensures result == node_argdate(self)
 
 // ---------------------------------------------------------------------------
 // Quoted arguments (C08, C10). openQuotePos locates the piece it is given by looking backwards from the lexer's
@@ -583,3 +586,17 @@ package parse
 //@ func (Node).Argument
 //@   nopanic
 //@ func (Argument).String
+
+// ---------------------------------------------------------------------------
+// Revision statements (C09): every revision date is a calendar date and the revisions appear in strictly descending
+// order (newest first, no duplicates) - wherever in the module they are written.
+//@ define isRev(n, i) = node_type(node_childat(n, i)) == NodeRevision
+//@ define revFull(n, i) = node_argdate(node_childat(n, i)) + "T00:00:00Z"
+//@ define revsOK(n, hi) = forall(i, 0, hi, implies(isRev(n, i), date_ok(revFull(n, i)))) &&
+//@        forall(i, 0, hi, forall(j, i+1, hi, implies(isRev(n, i) && isRev(n, j), date_key(revFull(n, i)) > date_key(revFull(n, j)))))
+//@ define tkey(t) = smt("Int", "(time_key %s)", t)
+//@ func checkRevisionOrder
+//@   requires n != nil
+//@   ensures iff(result == nil, revsOK(n, node_nchildren(n)))
+//@   loop 0 invariant revsOK(n, loopidx+1) && forall(i, 0, loopidx+1, implies(isRev(n, i), date_key(revFull(n, i)) >= tkey(rev)))
+//@   loop 0 invariant (tkey(rev) == date_key("9999-12-31T23:59:59Z") && forall(i, 0, loopidx+1, !isRev(n, i))) || exists(i, 0, loopidx+1, isRev(n, i) && date_key(revFull(n, i)) == tkey(rev) && rev == smt("S$time.Time", "(time_of %s)", tkey(rev)))
